@@ -174,7 +174,12 @@ func NewSingleHostReverseProxy(target *url.URL, without string, keepalive int, t
 				req.URL.Opaque = trimPathPrefix(req.URL.Opaque, without)
 			}
 			if req.URL.RawPath != "" {
-				req.URL.RawPath = trimPathPrefix(req.URL.RawPath, without)
+				trimmed := trimPathPrefix(req.URL.RawPath, without)
+				if trimmed == req.URL.RawPath {
+					// the prefix as it is written in an encoded path
+					trimmed = trimPathPrefix(req.URL.RawPath, (&url.URL{Path: without}).EscapedPath())
+				}
+				req.URL.RawPath = trimmed
 			}
 		}
 
@@ -199,9 +204,13 @@ func NewSingleHostReverseProxy(target *url.URL, without string, keepalive int, t
 				prefer(req.URL.Opaque, req.URL.Path))
 		}
 		if req.URL.RawPath != "" || target.RawPath != "" {
+			// (both in encoded form: RawPath is only set where it differs
+			// from the default encoding of Path, and joining a decoded
+			// half onto an encoded one gives an invalid encoding, which
+			// net/url discards in favour of re-encoding Path)
 			req.URL.RawPath = singleJoiningSlash(
-				prefer(target.RawPath, target.Path),
-				prefer(req.URL.RawPath, req.URL.Path))
+				target.EscapedPath(),
+				req.URL.EscapedPath())
 		}
 		req.URL.Path = singleJoiningSlash(target.Path, req.URL.Path)
 
